@@ -149,6 +149,18 @@ def check_yq(rep, binary, doc, prog, flags, informat):
             rep.violation("C27:yq:unparseable_json_output:" + icls, f"yq {flags} {prog!r}: {e}", replay)
             return
     else:
+        # Several results are printed one after the other without a document separator, so re-loading the
+        # YAML text is only meaningful for a single result: count them with the JSON printer first.
+        cnt = climon.run_cli(binary, base + ["-o", "json", "-I0", prog], stdin=doc)
+        try:
+            nres = len(parse_json_stream(cnt.out.decode("utf-8"))) if (not cnt.timeout and cnt.rc == 0) else -1
+        except (ValueError, UnicodeDecodeError):
+            nres = -1
+        if nres != 1:
+            rep.count("yq.yaml_output_with_other_than_one_result_not_reloaded")
+            if a.out == b.out:
+                rep.count("yq.byte_identical")
+            return
         va, r1 = yq_reload(binary, a.out, rep)
         vb, r2 = yq_reload(binary, b.out, rep)
         if va is None or vb is None:
